@@ -511,6 +511,11 @@ Definition comp_pad_trim_left_right (c : comp) (left right : Z) : result comp :=
         end
     end.
 
+(* "if (top > 0 or bottom > 0) and self.rows() == 0: self.shards = []"  (pad_trim_top_bottom, 69bd6e4):
+   a canvas without rows contributes no shard of its own once it is padded *)
+Definition drop_empty (c : comp) (top bottom : Z) : comp :=
+  if ((0 <? top) || (0 <? bottom)) && (shards_rows (cshards c) =? 0) then Comp [] (ccoords c) (cfin c) else c.
+
 (* CompositeCanvas.pad_trim_top_bottom(top, bottom) *)
 Definition comp_pad_trim_top_bottom (c : comp) (top bottom : Z) : result comp :=
   if cfin c then Err CanvasError
@@ -523,6 +528,7 @@ Definition comp_pad_trim_top_bottom (c : comp) (top bottom : Z) : result comp :=
     | Err e => Err e
     | Ok c1 =>
         let cols := shards_cols (cshards c1) in
+        let c1 := drop_empty c1 top bottom in
         let c2 := if 0 <? top
                   then Comp ((top, [CV 0 0 cols top None blank_canvas]) :: cshards c1)
                             (translate_coords (ccoords c1) 0 top) false
